@@ -370,8 +370,20 @@ class IncrementalH(Harness):
         return (f'pulled-k={pulled - k}', None, len(prog) >= 1)
 
 
-HARNESSES = {'pipelines': PipelinesH, 'incremental': IncrementalH}
-PLAN = {'quick': ['pipelines', 'incremental'], 'thorough': ['pipelines', 'incremental']}
+from . import c05  # noqa: E402
+
+
+class ThreadedOpsH(c05.BufferH):
+    """buffer() under the scheduler with slow / bursty sources and timer deviations: the yielded elements must still be exactly
+    the source's (the threaded operators are where 'equal to the sequential meaning' depends on the schedule)"""
+    name = 'threaded_ops'
+
+    def configs(self, tier):
+        return [c for c in c05.BufferH.configs(self, tier) if c['ev'][0] == 'none']
+
+
+HARNESSES = {'pipelines': PipelinesH, 'incremental': IncrementalH, 'threaded_ops': ThreadedOpsH}
+PLAN = {'quick': ['pipelines', 'incremental', 'threaded_ops'], 'thorough': ['pipelines', 'incremental', 'threaded_ops']}
 RULE = ('breadth-first enumeration of all type-correct operator sequences up to the length bound x fixed input family x '
         'consumption modes; every case runs the real Stream and the reference list interpreter; non-trivial = at least '
         'two operators')
